@@ -553,6 +553,12 @@ class Check:
         for kid, ofs in known_hits.items():
             k = next(k for k in known_open if k["id"] == kid)
             print("KNOWN-FINDING: property=%s %s (%d cases this run, e.g. %s)" % (pid, k["text"], len(ofs), ofs[0]["what"][:160]))
+        if replay is None:
+            # every LISTED finding of this property is announced on every run, also when this run's generated cases did not reach it
+            for k in known_open:
+                if k["id"] not in known_hits:
+                    print("KNOWN-FINDING: property=%s %s (listed in known_findings.json as %s; not reached by the cases generated in this run)"
+                          % (pid, k["text"], k["id"]))
 
         violation = None
         if new_failures:
